@@ -129,4 +129,18 @@ def check_volume_model(seeds=(0,), shape=(3, 4, 2)):
                             a = getattr(model, k)
                             if (a is None) != (b is None) or (a is not None and not np.array_equal(a, b)):
                                 return dict(reproduced=True, cases=cases, clause='VolumeModel must not modify the input model', attribute=k, case=case)
+                        # the coefficients are those of the CURRENT model: edit it in place, build the operator coefficients again
+                        if freq > 0:
+                            model.property_x[...] *= 1.7
+                            if case not in ('HTI', 'triaxial'):
+                                pass
+                            if mu:
+                                model.mu_r[...] = model.mu_r * 0.6 + 0.3
+                            vm2 = emg3d.models.VolumeModel(model, sf)
+                            want_x = -s * mu_0 * vol * (model.property_x + (s * epsilon_0 * er if eps else 0))
+                            wz2 = vol / (model.mu_r if mu else 1.0)
+                            if np.abs(vm2.eta_x - want_x).max() > 1e-12 * np.abs(want_x).max() or np.abs(vm2.zeta - wz2).max() > 1e-12 * np.abs(wz2).max():
+                                return dict(reproduced=True, cases=cases, clause='coefficients of a new VolumeModel follow the current model after an in-place edit of '
+                                            'property_x / mu_r (no stale state)', case=case, mu_r=mu, epsilon_r=eps, seed=seed,
+                                            how='contracts.c02_concrete.check_volume_model: VolumeModel, in-place edit of the model, VolumeModel again')
     return dict(reproduced=False, cases=cases)
